@@ -838,12 +838,12 @@ func Spec() *mon.Spec {
 			"the multi-error that peach reports for several failures is an unexported []error type; it is expanded by reflection",
 		},
 		Phases: []mon.Phase{
-			{Name: "peach", Quick: 900, Thorough: 20000, Run: runPeach, GoMaxProcs: 16, Timeout: 180 * time.Second},
-			{Name: "run-parallel", Quick: 300, Thorough: 6000, Run: runParallel, GoMaxProcs: 16, Timeout: 180 * time.Second},
+			{Name: "peach", Quick: 240, Thorough: 20000, Run: runPeach, GoMaxProcs: 16, Timeout: 180 * time.Second},
+			{Name: "run-parallel", Quick: 80, Thorough: 6000, Run: runParallel, GoMaxProcs: 16, Timeout: 180 * time.Second},
 		},
 		HangViolation: true,
-		Floors: map[string]int{"distinct_nontrivial": 300, "callbacks_started": 10000, "bound1_comparisons": 150,
-			"bound1_comparisons_with_break_or_fail": 30, "runs_with_overlap": 800, "runs_with_inputs_skipped_after_break_or_fail": 250,
-			"rp_functions_started": 2000, "rp_runs_with_exceptions": 120, "interleavings": 1000, "concurrency_seen": 4},
+		Floors: map[string]int{"distinct_nontrivial": 70, "callbacks_started": 2000, "bound1_comparisons": 30,
+			"bound1_comparisons_with_break_or_fail": 6, "runs_with_overlap": 150, "runs_with_inputs_skipped_after_break_or_fail": 50,
+			"rp_functions_started": 400, "rp_runs_with_exceptions": 25, "interleavings": 200, "concurrency_seen": 4},
 	}
 }
